@@ -14,7 +14,7 @@ use std::net::{IpAddr, Ipv4Addr};
 use std::sync::Arc;
 use std::time::Duration;
 use trusttunnel::core::Core;
-use trusttunnel::settings::{Http2Settings, IcmpSettings, ListenProtocolSettings, Settings};
+use trusttunnel::settings::{Http1Settings, Http2Settings, IcmpSettings, ListenProtocolSettings, Settings};
 use trusttunnel::shutdown::Shutdown;
 use trusttunnel::verif_hooks::{self as vh, VIcmpReport};
 
@@ -122,7 +122,7 @@ fn make_ctx() -> Result<(Core, vh::VContext), String> {
         .listen_address("127.0.0.1:1")
         .map_err(|e| e.to_string())?
         .ipv6_available(false)
-        .listen_protocols(ListenProtocolSettings { http1: None, http2: Some(Http2Settings::builder().build()), quic: None })
+        .listen_protocols(ListenProtocolSettings { http1: Some(Http1Settings::builder().build()), http2: Some(Http2Settings::builder().build()), quic: None })
         .icmp(IcmpSettings::builder().interface_name("lo").request_timeout(Duration::from_millis(TIMEOUT_MS)).build().map_err(|e| format!("{e:?}"))?)
         .build()
         .map_err(|e| format!("{e:?}"))?;
@@ -243,6 +243,72 @@ async fn run_history(hist: &[Op]) -> Result<HistOutcome, Violation> {
     Ok(HistOutcome { canon, extend: true })
 }
 
+
+/// End to end: CONNECT _icmp on an HTTP/2 session of the real accept path, one echo request to
+/// 127.0.0.1 in the 7.3 encoding, the kernel's reply back in the 7.4 encoding.
+async fn e2e_case(h2: bool) -> Result<&'static str, Violation> {
+    let case = json!({"kind":"icmp-e2e","h2":h2});
+    let fail = |sig: &str, what: String| Violation::new(format!("C11:e2e:{sig}:{}", if h2 { "h2" } else { "h1" }), what, case.clone());
+    let (_core, ctx) = make_ctx().map_err(|e| Violation::new("C11:machinery", e, json!({})))?;
+    if raw_socket().is_none() {
+        return Err(Violation::new("C11:machinery:raw", "raw sockets are not permitted", json!({})));
+    }
+    let listen = {
+        let ctx = ctx.clone();
+        tokio::spawn(async move { vh::icmp_listen(&ctx).await })
+    };
+    door::spin(50).await;
+    if listen.is_finished() {
+        return Err(Violation::new("C11:machinery:raw", "the ICMP forwarder cannot open its raw socket on lo", json!({})));
+    }
+    let peer: std::net::SocketAddr = "198.51.100.7:40000".parse().unwrap();
+    let (io, d) = door::open(&ctx, if h2 { vh::VProtocol::Http2 } else { vh::VProtocol::Http1 }, "m.t", None, peer, 1 << 16);
+    let id = id0().wrapping_add(0x0e2e);
+    let request = record(id, Ipv4Addr::LOCALHOST, 9, 64, 16);
+    let mut got = vec![];
+    if h2 {
+        let mut cl = door::H2Client::connect(io).await.map_err(|e| Violation::new("C11:machinery", e, json!({})))?;
+        let spec = door::ReqSpec::connect("_icmp");
+        let mut st = cl.request(spec.h2_request().map_err(|e| Violation::new("C11:machinery", e, json!({})))?, false).await.map_err(|e| Violation::new("C11:machinery", e, json!({})))?;
+        match st.response(Duration::from_secs(3)).await {
+            door::H2Outcome::Response(r) if r.status == 200 => {}
+            other => return Err(fail("mux-refused", format!("CONNECT _icmp answered {other:?}"))),
+        }
+        st.tx.send_data(request.clone(), false).map_err(|e| Violation::new("C11:machinery", e.to_string(), json!({})))?;
+        let t0 = std::time::Instant::now();
+        while got.len() < 22 && t0.elapsed() < Duration::from_secs(3) {
+            let (b, ended, _) = st.body(20).await;
+            got.extend_from_slice(&b);
+            if ended {
+                break;
+            }
+        }
+    } else {
+        let mut cl = door::H1Client::new(io);
+        cl.send(&door::ReqSpec::connect("_icmp").h1_bytes()).await;
+        match cl.response(Duration::from_secs(3)).await {
+            Some(r) if r.status == 200 => {}
+            other => return Err(fail("mux-refused", format!("CONNECT _icmp answered {:?}", other.map(|r| r.status)))),
+        }
+        cl.send(&request).await;
+        let t0 = std::time::Instant::now();
+        while cl.inbuf.len() < 22 && t0.elapsed() < Duration::from_secs(3) && !cl.eof {
+            cl.pump(20).await;
+        }
+        got = cl.inbuf.clone();
+    }
+    d.task.abort();
+    listen.abort();
+    // 7.4: id(2) source(16, zero-padded IPv4) type(1) code(1) seq(2)
+    let mut want = id.to_be_bytes().to_vec();
+    want.extend_from_slice(&[0; 12]);
+    want.extend_from_slice(&[127, 0, 0, 1, 0, 0, 0, 9]);
+    if got != want {
+        return Err(fail(if got.is_empty() { "no-reply" } else { "wrong-reply" }, format!("an echo request to 127.0.0.1 (id {id:#06x}, seq 9) through the tunnel was answered with {} instead of {}", hex::encode(&got), hex::encode(&want))));
+    }
+    Ok("echo-reply-relayed")
+}
+
 struct M;
 impl HistoryModel for M {
     type Op = Op;
@@ -277,6 +343,14 @@ pub fn run_into(rep: &mut Report, tier: Tier) {
         rep.sub.push(json!({"sub":"waiter-histories","status":"skipped","reason":"the forwarder could not open/bind its raw socket on lo"}));
         return;
     }
+    for h2 in [true, false] {
+        match super::guarded(|| rt::run_real(e2e_case(h2))) {
+            Ok(Ok(c)) => rep.sub.push(json!({"sub":"icmp-end-to-end","protocol": if h2 { "h2" } else { "h1" },"class":c,"what":"CONNECT _icmp through the real accept path, one 7.3 echo request to 127.0.0.1 on a raw socket bound to lo, the 7.4 reply back"})),
+            Ok(Err(v)) if v.signature.starts_with("C11:machinery:raw") => {}
+            Ok(Err(v)) => rep.violation(v),
+            Err(p) => rep.violation(Violation::new("C11:e2e:panic", p, json!({"kind":"icmp-e2e","h2":h2}))),
+        }
+    }
     rep.add("evaluations", st.transitions);
     rep.add("distinct_nontrivial", st.states);
     rep.sub.push(json!({"sub":"waiter-histories","states":st.states,"transitions":st.transitions,"max_depth_completed":st.max_depth_completed,"capped":st.capped,
@@ -285,6 +359,9 @@ pub fn run_into(rep: &mut Report, tier: Tier) {
 }
 
 pub fn replay(case: &serde_json::Value) -> Result<(), Violation> {
+    if case["kind"].as_str() == Some("icmp-e2e") {
+        return rt::run_real(e2e_case(case["h2"].as_bool().unwrap_or(true))).map(|_| ());
+    }
     let hist: Vec<Op> = serde_json::from_value(case["history"].clone()).map_err(|_| Violation::new("C11:machinery", "bad replay file", json!({})))?;
     rt::run_paused(run_history(&hist)).map(|_| ())
 }
